@@ -110,6 +110,76 @@ func runC19(c *report.Ctx) {
 		}
 	}
 
+	// ---- negative Repeat count -----------------------------------------------------------------------------
+	c.Rule("repeat-count", "strings.Repeat(s, K-len(x)) on request data is reached only where len(x) <= K is established for that same x (a negative count panics)", 1)
+	for _, f := range p.ModFuncs {
+		if pk := an.FuncPkg(f); pk == nil || !(pk.Path() == pkgAPI || pk.Path() == pkgWallet) {
+			continue
+		}
+		k := 0
+		an.Instrs(f, func(in ssa.Instruction) {
+			call, ok := in.(*ssa.Call)
+			if !ok || call.Call.StaticCallee() == nil || an.FuncKey(call.Call.StaticCallee()) != "strings.Repeat" {
+				return
+			}
+			cnt, ok := call.Call.Args[1].(*ssa.BinOp)
+			if !ok || cnt.Op != token.SUB {
+				if _, isK := call.Call.Args[1].(*ssa.Const); isK {
+					return
+				}
+				return
+			}
+			K, isK := cnt.X.(*ssa.Const)
+			lc, isLen := cnt.Y.(*ssa.Call)
+			if !isK || !isLen {
+				return
+			}
+			if b, isB := lc.Call.Value.(*ssa.Builtin); !isB || b.Name() != "len" {
+				return
+			}
+			k++
+			key := siteKey(f, "strings.Repeat(K-len(x))", k)
+			x := lc.Call.Args[0]
+			kv := K.Value.ExactString()
+			bounded := func(v ssa.Value, gs []an.Atom) bool {
+				if c2, isC := v.(*ssa.Const); isC && c2.Value != nil {
+					return true // literal: length is a compile-time fact (checked by the compiler's constant folding of len)
+				}
+				return an.AnyAtom(gs, func(a an.Atom) bool {
+					lx, ok := a.X.(*ssa.Call)
+					if !ok || len(lx.Call.Args) != 1 || lx.Call.Args[0] != v {
+						return false
+					}
+					if b, isB := lx.Call.Value.(*ssa.Builtin); !isB || b.Name() != "len" {
+						return false
+					}
+					ky, ok := a.Y.(*ssa.Const)
+					return ok && ky.Value != nil && a.Op == token.LEQ && ky.Value.ExactString() == kv
+				})
+			}
+			ok2 := true
+			if ph, isPhi := x.(*ssa.Phi); isPhi {
+				for i, e := range ph.Edges {
+					pred := ph.Block().Preds[i]
+					gs := p.Guards(pred)
+					if ea := edgeAtoms(p, pred, ph.Block()); ea != nil {
+						gs = append(gs, *ea)
+					}
+					if !bounded(e, gs) {
+						ok2 = false
+					}
+				}
+			} else if !bounded(x, p.GuardsOf(in)) {
+				ok2 = false
+			}
+			if ok2 {
+				c.OK(key, "len(x) <= "+kv+" established for every value of x", posOf(c, in))
+			} else {
+				c.Fail(key, "strings.Repeat is called with "+kv+"-len(x) where len(x) <= "+kv+" is not established for that x: an over-long (zero-padded) fraction makes the count negative and the request handler panics", posOf(c, in))
+			}
+		})
+	}
+
 	// ---- (5) no wallet selected ----------------------------------------------------------------
 	ruleNoWalletSelected(c)
 
